@@ -6,7 +6,7 @@ from vf.ob import obligation, shard
 
 META = {
     "bounds": "4 mutation documents (2-4 root fields, aliases, fragments at the root, nested selections with a list), <= 4 gated nested resolvers per document "
-              "(every completion order), failure placement over {none, each gated nested field, a nullable root, a non-null root}; concurrent and sequential engine configurations",
+              "(every completion order), failure placement over {none, each gated nested field, a nullable root, a non-null root}; concurrent and sequential engine configurations, mutation root type named Mutation / custom name / added by `extend schema`",
     "outside": "more than 4 simultaneously pending nested resolvers; subscription/query operations (C08)",
     "explanation": "Start/finish log of every resolver: the first event of root field i+1 must come after the last event of root field i's whole subtree.",
 }
@@ -40,23 +40,37 @@ async def universal(parent, args, ctx, info):
     return read(parent, info.field_name)
 
 
+SDL_NAMED = SDL.replace("type Mutation {", "type Ops {") + "\nschema { query: Query mutation: Ops }\n"      # the mutation root need not be called Mutation
+SDL_EXT = SDL.replace("type Mutation {", "type Changes {") + "\nschema { query: Query }\nextend schema { mutation: Changes }\n"
 ENGS = [build(SDL, "c09_a", custom_default_resolver=universal, query_cache_decorator=DictCache()),
-        build(SDL, "c09_b", custom_default_resolver=universal, query_cache_decorator=DictCache(), coerce_parent_concurrently=False, coerce_list_concurrently=False)]
+        build(SDL, "c09_b", custom_default_resolver=universal, query_cache_decorator=DictCache(), coerce_parent_concurrently=False, coerce_list_concurrently=False),
+        build(SDL_NAMED, "c09_c", custom_default_resolver=universal, query_cache_decorator=DictCache())]
+try:
+    ENGS.append(build(SDL_EXT, "c09_d", custom_default_resolver=universal, query_cache_decorator=DictCache()))
+except Exception:        # `extend schema` with an operation type may not be supported by the SDL grammar: then only the named variant is used
+    pass
 LEAF = {"n": 3, "audit": "ok"}
 MID = {"n": 2, "leaf": LEAF, "leaves": [LEAF, {"n": 4, "audit": "x"}], "audit": "au", "bal": 10}
 DATA = {"first": MID, "second": MID, "nnroot": 1}
 DOCS = {
     "M1": ("mutation { first { audit bal n } second { n } third(v: 1) }", [("first", "audit"), ("first", "bal"), ("first", "n"), ("second", "n")], ["first", "second", "third"]),
-    "M2": ("mutation { a: first { ...F } ...R b: third(v: 2) } fragment R on Mutation { second { leaves { n } } } fragment F on Mid { n bal }",
+    "M2": ("mutation { a: first { ...F } ...R b: third(v: 2) } fragment R on %(root)s { second { leaves { n } } } fragment F on Mid { n bal }",
            [("a", "n"), ("a", "bal"), ("second", "leaves", 0, "n"), ("second", "leaves", 1, "n")], ["a", "second", "b"]),
     "M3": ("mutation { first { leaf { audit n } n } second { audit } nnroot third(v: 3) }", [("first", "leaf", "audit"), ("first", "leaf", "n"), ("first", "n"), ("second", "audit")],
            ["first", "second", "nnroot", "third"]),
     "M4": ("mutation { x: third(v: 1) first { leaves { audit n } } y: third(v: 2) }", [("first", "leaves", 0, "audit"), ("first", "leaves", 0, "n"), ("first", "leaves", 1, "audit"), ("first", "leaves", 1, "n")],
            ["x", "first", "y"]),
 }
-for _e in ENGS:
-    for _q, _, _ in DOCS.values():
-        env.run(_e.execute(_q, initial_value=DATA))
+ROOTS = ["Mutation", "Mutation", "Ops", "Changes"]
+
+
+def doc_text(doc, eng):
+    return DOCS[doc][0] % {"root": ROOTS[eng]} if "%(root)s" in DOCS[doc][0] else DOCS[doc][0]
+
+
+for _i, _e in enumerate(ENGS):
+    for _d in DOCS:
+        env.run(_e.execute(doc_text(_d, _i), initial_value=DATA))
 
 
 def serial(log, roots):
@@ -77,7 +91,7 @@ def serial(log, roots):
     return started == roots[:len(started)]
 
 
-@obligation(tier="quick", timeout=300, shards=[{"doc": d, "eng": e} for d in DOCS for e in (0, 1)],
+@obligation(tier="quick", timeout=300, shards=[{"doc": d, "eng": e} for d in DOCS for e in range(len(ENGS))],
             samples=[{"c0": 0, "c1": 0, "c2": 0, "c3": 0, "fault": 0}, {"c0": 2, "c1": 1, "c2": 1, "c3": 0, "fault": 2}],
             symbolic=["c0..c3: completion order of the pending nested resolvers"],
             selectors=["fault: none / one of the gated nested fields / the second root field (nullable) / the non-null root", "shard: document, engine configuration"],
@@ -88,7 +102,8 @@ def c09_serial(c0: int, c1: int, c2: int, c3: int, fault: int) -> bool:
     post: _
     """
     sh = shard()
-    q, gates, roots = DOCS[sh["doc"]]
+    _, gates, roots = DOCS[sh["doc"]]
+    q = doc_text(sh["doc"], sh["eng"])
     fault = pick(fault, len(gates) + 3)
     del LOG[:]; GATES.clear(); FAULTS.clear()
     for g in gates:
